@@ -225,13 +225,14 @@ class Opaque(Exception):
     """an op addresses INTO a map / array value that an earlier op of the same patch put there"""
 
 
-SPLICED = set()     # id()s of container values spliced in by the ops of the line being judged
+SPLICED = {}        # id() → the container values spliced in by the ops of the line being judged (the
+                    # objects are kept alive: a freed value's id() is reused by the next tuple built)
 TOUCHED = [False]   # did the op being evaluated go through / target one of them?
 
 
 def _mark(t):
     if t[0] in ("M", "A"):
-        SPLICED.add(id(t))
+        SPLICED[id(t)] = t
     return t
 
 
@@ -1110,7 +1111,8 @@ def run(ctx):
                           tag="corr", found_input=False)
     if ctx.thorough:
         ok, out = K.leanchecker(ctx, ["Hv.Props.C13", "Hv.Patch.OpsWf", "Hv.Patch.RoundTrip", "Hv.Patch.Untouched", "Hv.Patch.NumLemmas",
-                                      "Hv.Patch.SpecRefine", "Hv.Patch.Target", "Hv.Patch.LeafBytes"])
+                                      "Hv.Patch.SpecRefine", "Hv.Patch.Target", "Hv.Patch.LeafBytes", "Hv.Patch.SpecLemmas",
+                                      "Hv.Patch.ErrorClass", "Hv.Patch.ErrorClassOps", "Hv.Patch.PatchFields", "Hv.Patch.Wire"])
         ctx.cov["leanchecker"] = "ok" if ok else out[-500:]
         if not ok:
             ctx.violation("leanchecker rejected the compiled proofs", {"log": out[-2000:]}, tag="leanchecker", found_input=False)
